@@ -395,7 +395,7 @@ PROPS["C15"] = {
                    "root) unless the cycle saw a root change that exempts it; lifted to histories of any length in which "
                    "any cycle may be cut short anywhere (timestamp/snapshot/targets_protected_despite_crashes); from "
                    "every crash state of a successful cycle the same cycle succeeds again with the same view "
-                   "(crash_no_lockout, via Proofs/ClientRerun.lean: a step depends on the datastore only through the clock "
+                   "(crash_states_complete: the list of crash states misses none; crash_no_lockout, via Proofs/ClientRerun.lean: a step depends on the datastore only through the clock "
                    "sample and whether its own stored document blocks the result); the "
                    "truncate-then-write create of the original code is refuted by a concrete witness. Correspondence: the "
                    "datastore the real client leaves behind is one of the model's crash states, and both follow-up cycles "
@@ -411,8 +411,9 @@ PROPS["C15"] = {
                   "arbitrary later repository it is enumerated (scenarios RotateSnapRestart etc.), not proved; (2) the "
                   "model's create is atomic: that the real create (temporary file, fsync, rename) is atomic under process "
                   "death and failed writes rests on POSIX rename semantics and is exercised, not proved; power loss "
-                  "(un-synced directory entries) is outside the model; (3) 'the datastore only changes through logged "
-                  "operations' is by inspection of the eight update sites of the model.",
+                  "(un-synced directory entries) is outside the model; that the datastore changes only through logged operations "
+                  "is proved (crash_states_complete via Proofs/ClientCoh.lean), so the list of crash states is complete "
+                  "for the model.",
     "trusted": ["strace 6.1 fault injection (inject=SYSCALL:signal=KILL|error=E:when=K) and its log",
                 "modelled, not verified: the file system (rename replaces atomically; a failed call has no effect)"],
     "assumptions": ["process death or a failed system call, not power loss", "one client process per datastore directory"],
